@@ -29,6 +29,10 @@ CLASS_SEEDS = [
     "c = 1\nx = 1\nwhile true:\n    if c == 1:\n        x = x + 1\n    end\nend\n",
     # nested branches reassigning their own condition variable
     "c = 1\nd = 0\nx = 0\nwhile true:\n    if c == 1:\n        if d == 0:\n            d = 1\n            x = x + 1\n        else:\n            d = 0\n        end\n        c = Bernoulli(1/2)\n    else:\n        c = 1\n    end\nend\n",
+    # an inner if reassigning its own condition variable followed by a sibling inner if; depth 3; under a guard
+    "c = 1\nd = 0\nx = 0\ny = 0\nwhile true:\n    if c == 1:\n        if d == 0:\n            d = 1\n            x = x + 1\n        else:\n            d = 0\n        end\n        if d == 1:\n            y = y + 1\n            d = Bernoulli(1/2)\n        end\n        c = Bernoulli(1/2)\n    else:\n        c = 1\n    end\nend\n",
+    "c = 1\nd = 0\nx = 0\nwhile true:\n    c = Bernoulli(1/2)\n    if c == 1:\n        if d == 0:\n            if x == 0:\n                x = 1\n            else:\n                x = 0\n            end\n            d = 1\n        else:\n            d = 0\n        end\n    end\nend\n",
+    "c = 1\nd = 0\nx = 0\nwhile c == 1:\n    if d == 0:\n        d = 1\n        x = x + 1\n    else:\n        d = 0\n    end\n    if d == 1:\n        d = Bernoulli(1/2)\n        x = x + 2\n    end\n    c = Bernoulli(1/2)\nend\n",
     # non-integer finite values in conditions
     "c = 1\nx = 0\nwhile true:\n    c = 0 {1/3} 1/2 {1/3} 1\n    if c < 1:\n        x = x + 1\n    end\n    if c >= 1/2:\n        x = x + 2\n    end\nend\n",
     # goals over loop constants
